@@ -6,7 +6,7 @@ import ast
 
 from ..dep import signed_leaves, data_sources
 from ..flow import (Ref, Param, LoopVar, Elt, Phi, Acc, Sym, strip_refs, show, pathkey, same_value, deep_walk, walk_no_sym,
-                    facts_at, normalise_fact)
+                    facts_at, normalise_fact, definitions_of)
 from ..model import AnalysisError, unparse, walk_no_nested
 from .common import (root_of_expr, path_from_param, const_value, floor, call_name, is_call_to, gate_with, dominates)
 from .c03 import zero
@@ -147,12 +147,15 @@ def stage_rules(ctx):
     for q in ('Recipe.get_container_flows', 'Recipe.get_amount_remaining'):
         fi = model.func(q)
         ff = ctx.flow(q)
-        subs = []
+        subs, seen = [], set()
         for stmt in walk_no_nested(fi.node):
-            if isinstance(stmt, ast.Assign) and id(stmt) in ff.pre:
-                v = strip_refs(ff.resolved.get(id(stmt)))
-                if isinstance(v, ast.Subscript) and path_from_param(v.value) == ('self', ['steps']):
-                    subs.append((stmt, v))
+            # every read self.steps[..]: bound to a variable first, or iterated directly
+            if isinstance(stmt, (ast.Assign, ast.For)) and id(stmt) in ff.pre and ff.resolved.get(id(stmt)) is not None:
+                for v in deep_walk(ff.resolved.get(id(stmt))):
+                    if isinstance(v, ast.Subscript) and path_from_param(v.value) == ('self', ['steps']) and \
+                            id(getattr(v, 'orig', v)) not in seen:
+                        seen.add(id(getattr(v, 'orig', v)))
+                        subs.append((stmt, v))
         ok = bool(subs) and all(_is_stage_slice(v.slice) for s, v in subs)
         ctx.ob('C09.R2', fi, (subs[0][0].lineno if subs else fi.node.lineno),
                f"{fi.name} takes its steps from self.steps[self.stages[timeframe]]", ok,
@@ -348,13 +351,20 @@ def substances_used(ctx):
             # the source's pre-state substances
             if len(stores) == 1:
                 v = strip_refs(stores[0][3])
-                srcs = {n.name for n in deep_walk(v) if isinstance(n, Ref)}
-                pre = stores[0][0].lineno < first_op
-                from_source = isinstance(v, ast.Call) and call_name(v)[1] == 'get_substances' and \
-                    any(isinstance(n, Ref) and n.name == 'source' for n in deep_walk(v.func.value)) and \
-                    not any(isinstance(n, Ref) and n.name == 'dest' for n in deep_walk(v.func.value))
-                ok = pre and from_source
-                fact = f"{show(stores[0][3], 50)} computed {'before' if pre else 'after'} the transfer"
+                recv = v.func.value if isinstance(v, ast.Call) and isinstance(v.func, ast.Attribute) else None
+                # the receiver must be the very object handed to the operation as its source (hence its pre-state),
+                # and not the one handed over as destination
+                def ids(x):
+                    return {d.defid for d in definitions_of(x) if isinstance(d, Ref)}
+                src_ids, dst_ids = set(), set()
+                for c, s_, b in op_calls:
+                    if len(c.args) >= 2:
+                        src_ids |= ids(c.args[0])
+                        dst_ids |= ids(c.args[1])
+                rid = ids(recv) if recv is not None else set()
+                from_source = call_name(v)[1] == 'get_substances' and bool(rid) and rid <= src_ids and not (rid & dst_ids)
+                ok = from_source
+                fact = f"{show(stores[0][3], 50)}: receiver is the source operand of the operation: {from_source}"
             why = 'a transfer can change every substance of the source; the recorded set must be the source\'s before the transfer'
         elif op in ('create_container', 'solution', 'solution_from'):
             if len(stores) == 1:
